@@ -63,6 +63,25 @@ def check(ctx: Ctx, ev: Evidence) -> list[Finding]:
                 ev.inst("C13-R1", k, "ok" if handled else "violation")
                 if not handled:
                     out.append(Finding("C13-R1", "dest handler | EOF dropped in the check-limit step", "an EOF (e.g. EOF cancel) arriving during check-limit handling is ignored", "", witness_of(dst, e)))
+        # "exactly at the limit-th expiry": the count is zeroed and the timer (re)started only when the check-limit step is entered;
+        # nothing that happens inside the step - late File Data in particular - restarts the procedure
+        # (inputs of the property's quantifier: late File Data and timer expiries; a duplicated EOF is outside it)
+        if step_of(dst, e.pre) == "RECV_FILE_DATA_WITH_CHECK_LIMIT_HANDLING" and e.exc is None and e.label in (("state_machine", "FD"), ("state_machine", None)):
+            oids0 = timer_oids(dst, e, proc)
+            for x in evs:
+                if ename(h.ew(x.watch, "states.step")) != "RECV_FILE_DATA_WITH_CHECK_LIMIT_HANDLING":
+                    continue
+                restart = None
+                if x.kind == "store" and x.name == proc.counter and x.args[2] == "set" and x.args[0] == 0:
+                    restart = "the check count is set back to 0"
+                elif x.kind == "timer" and x.name == "reset" and x.args and x.args[0] in oids0 and not any(y.kind == "timer" and y.name == "expired" and y.args[0] in oids0 for y in evs):
+                    restart = "the check timer is restarted without having expired"
+                if restart:
+                    k = f"inside the check-limit step ({e.label[1] or 'no packet'}): {restart} in {x.func.split('.')[-1]}"
+                    if once(k):
+                        ev.inst("C13-R2", k, "violation", x.site)
+                        out.append(Finding("C13-R2", f"dest handler | check-limit procedure restarted inside the step | {x.func.split('.')[-1]} | input {e.label[1]}",
+                                           f"{restart} while the handler is already in check-limit handling: the Check Limit Reached fault is no longer declared at the configured expiry (a trickle of late data postpones it indefinitely)", x.site, witness_of(dst, e)))
         # re-verification on every expiry of the check timer
         oids = timer_oids(dst, e, proc)
         exp = [i for i, x in enumerate(evs) if x.kind == "timer" and x.name == "expired" and x.args[0] in oids]
